@@ -309,6 +309,9 @@ class CallMixin:
         self.pending = []
         self.paths = 0
         self.assumed_contracts = set()
+        self.guard_stack = []
+        if not hasattr(self, "engine_lemmas"):
+            self.engine_lemmas = set()
         st = State()
         env = {}
         self.current_probes = {}
@@ -327,6 +330,14 @@ class CallMixin:
         if a.kwarg is not None and a.kwarg.arg not in env:
             env[a.kwarg.arg] = KwArgs({k: env[k] for k in con.ghost.get("kwargs", [])})
         st.env = env
+        for pname, pty in con.params.items():
+            if isinstance(pty, TObj) and pty.cls in loader.all_classes():
+                for c_ in loader.mro(pty.cls):
+                    for f_, fty in C.SCHEMAS.get(c_, {}).items():
+                        try:
+                            self.add_probe(f"{pname}.{f_}", self.heap_read(st, env[pname], f_))
+                        except Unsupported:
+                            pass
         for k, v in con.ghost.get("env", {}).items():
             st.env[k] = v
         cx0 = Ctx(self, st, st)
